@@ -3,6 +3,8 @@ sys.path.insert(0,'/verif')
 from lib import report as R, facts as FA, selfval, extract as X
 CLAIMED=[c["property_id"] for c in json.load(open('/verif/MANIFEST.json'))["checks"]]
 KNOWN_ALARM={
+ ('X3','2'): "C15 M1: the `take_while(..).sum()` / `map(..).sum()` of line_col_for_pos / end_col_for_line rewritten as explicit `+=` loops: new overflow-checked additions that the panic inventory can neither discharge mechanically nor match to a reviewed site (the same limit as in campaigns 3, 4 and 6)",
+ ('X7','3'): "C02 P6 / C10 Q1: the string scan moved into closing_quote_end, which walks char_indices() and adds `start + c.len_utf8()` where lex_string summed `total_len += c.len_utf8()`: a different overflow-checked addition under different guards than the reviewed one (verifier-style inventory; bounded by the text length). Every other rule about the callback (L1 bytes, G9 transitions and memory, K14) follows the loop into the helper",
  ('W1','2'): "C15 M1: the iterator `.sum()` of end_col_for_line / line_col_for_pos rewritten as an explicit `+=` loop is a new overflow-checked addition that the panic inventory can neither discharge mechanically nor match to a reviewed site (same limit as in campaigns 3 and 4)",
  ('W6','1'): "C02 P6 / C10 Q1: lex_string walks char_indices() and adds `offset + c.len_utf8()` where it summed `total_len += c.len_utf8()`: the overflow-checked addition is a different construct under different guards than the reviewed one (verifier-style inventory; the addition is bounded by the text length)",
 }
